@@ -567,7 +567,12 @@ func RunJob(t *testing.T, job *Job) *Result {
 			plan2 := d.Gen(NewRand(seed), cfg)
 			o2 := RunPlan(t, d, plan2, seed, false)
 			res.SelfTests++
-			if o2.LogHash() != o.LogHash() {
+			if o2.LogHash() != o.LogHash() && (o.Aborted || o2.Aborted) {
+				// one of the two executions was cut short by the REAL-TIME watchdog (a call starved
+				// of CPU under load, or a genuine hang that the violation path reports): the event
+				// logs differ for that reason alone, which says nothing about determinism
+				res.Unreproduced = append(res.Unreproduced, fmt.Sprintf("self-test of run %d skipped: a wall-clock watchdog cut one execution short", i))
+			} else if o2.LogHash() != o.LogHash() {
 				res.HarnessErr = fmt.Sprintf("determinism self-test failed: run %d seed %d: %s vs %s", i, seed, o.LogHash(), o2.LogHash())
 				break
 			}
